@@ -33,10 +33,15 @@ def build(ch):
     has_mem = imp_mem or ch.below(5) > 0
     has_tab = imp_tab or ch.below(3) > 0
     mn = 1 + ch.below(2)
+    # shared memories (threads proposal: a maximum is mandatory; the host allocates up to it, the page count starts at the minimum)
+    shared_mem = ch.below(5) == 0
     if imp_mem:
-        m.imports.append((b'env', b'mem', 'memory', (mn, ch.pick((None, mn, mn + 2)), False)))
+        m.imports.append((b'env', b'mem', 'memory', (mn, ch.pick((mn, mn + 2, mn + 5)), True) if shared_mem else
+                          (mn, ch.pick((None, mn, mn + 2)), False)))
     elif has_mem:
-        m.memory = (mn, ch.pick((None, mn, mn + 2)), False)
+        m.memory = (mn, ch.pick((mn, mn + 2, mn + 5)), True) if shared_mem else (mn, ch.pick((None, mn, mn + 2)), False)
+    if shared_mem and (imp_mem or has_mem):
+        cls['shared_memory'] = 1
     tsize = 8 + ch.below(8)
     if imp_tab:
         m.imports.append((b'env', b'tab', 'table', (tsize, None)))
@@ -56,7 +61,7 @@ def build(ch):
             m.globals.append((t, bool(ch.below(2)), ('global.get', ch.pick(cands))))
             cls['global_from_import'] = 1
         else:
-            v = pools.draw_value(ch, t)
+            v = pools.draw_const(ch, t)
             if pools.is_snan(t, v):
                 v = pools.quiet(t, v)
             m.globals.append((t, bool(ch.below(2)), ('%s.const' % t, v)))
@@ -234,7 +239,7 @@ def make_inst(ch, params):
                 script.append(('bind', 1, gi, binds[(0, gi)]))
                 continue
             if kind == 'memory':
-                script.append(('newmem', k, desc[0], desc[1], False))
+                script.append(('newmem', k, desc[0], desc[1], len(desc) > 2 and bool(desc[2])))
             elif kind == 'table':
                 script.append(('newtab', k, desc[0], desc[1]))
             else:
